@@ -441,6 +441,28 @@ fn main() {
         }
         t
     });
+    // D4: structured coefficients (word limits, word-crossing products, digit patterns at every length, carry
+    // chains, all-ones words) at decimal exponents across the whole f64 range
+    let st = structured_ints(tier.pick(80, 300), tier.pick(24, 60), run.seed());
+    run.bound("D4_structured_integers", st.len());
+    run.bound("D4_exponents", "every 7th exponent of the leading digit in -350..=315, and -2..=2");
+    run.par("D4 structured decimals -> to_f64", st.len(), |i| {
+        let mut t = Tally::default();
+        let l = ndigits(&st[i]) as i128;
+        let es: Vec<i128> = (-350i128..=315).step_by(7).chain(-2..=2).collect();
+        for e in es {
+            for sign in [1, -1] {
+                let x = Dec { n: &st[i] * sign, s: l - 1 - e };
+                t.states += 1;
+                t.transitions += 1;
+                t.nontrivial += 1;
+                if let Some(v) = check_to_f64(&lim, &x, e % 2 == 0) {
+                    run.report(v);
+                }
+            }
+        }
+        t
+    });
     let _ = BigInt::zero();
     run.finish();
 }
